@@ -31,6 +31,10 @@ for ch in [(6, 8), (4, 1), (3, 4), (2, 3)]:
     chk(f"rolling sum of a column of a rolling sum {ch}", lambda: da.sliding_window_view(S()[:, 0], 3).sum(axis=-1).compute(), sw(n1[:, 0], 3).sum(axis=-1))
     chk(f"2-d moving window (axis 1 then axis 0) {ch}", lambda: da.sliding_window_view(S(), 3, axis=0).sum(axis=-1).compute(), sw(n1, 3, axis=0).sum(axis=-1))
     chk(f"rolling max of the transpose {ch}", lambda: da.sliding_window_view(S().T, 2, axis=1).max(axis=-1).compute(), sw(n1.T, 2, axis=1).max(axis=-1))
+S = lambda: da.sliding_window_view(da.from_array(arr, chunks=(6, 8)), 3, axis=-1).sum(axis=-1)  # noqa: E731
+ne = np.einsum("ij,kj->ik", n1, n1)
+chk("rolling sum of a row of tensordot(s, s)", lambda: da.sliding_window_view(da.tensordot(S(), S(), axes=((1,), (1,)))[0], 3).sum(axis=-1).compute(), sw(ne[0], 3).sum(axis=-1))
+chk("rolling sum of a row of s @ s.T", lambda: da.sliding_window_view((S() @ S().T)[0], 3).sum(axis=-1).compute(), sw(ne[0], 3).sum(axis=-1))
 a2 = np.arange(200.0).reshape(20, 10) % 13 - 4
 n2 = sw(a2, 8, axis=1).sum(axis=-1)
 for ch in [(5, 3), (20, 2)]:
